@@ -1,7 +1,1066 @@
-//! Lane `sync` (stub).
+//! Lane `sync` (C14): the REAL `LdapConn` / `EntryStream` against the REAL `Ldap` / `SearchStream`.
+//!
+//! A scripted LDAP server (plain thread on one end of a `UnixStream::pair()`; answers by script: result
+//! codes, entries/referrals, paged-results cookies, silence, disconnect) is talked to twice with the same
+//! random script of API calls: once through the sync façade (`LdapConn::from_url_with_settings` with
+//! `StdStream::Unix`), once through the async API (`LdapConnAsync::from_url_with_settings` on a
+//! current-thread runtime, `ldap3::drive!`).  One macro (`exec_op!`) expands to both call sequences, so the
+//! two runs differ in nothing but `LdapConn`/`EntryStream` vs `Ldap`/`SearchStream` (+ `.await`).
+//! Silence and disconnect are asked for by a marker inside the request (`zzsilent`, `zzdisconnect`), so that they hit
+//! exactly the operation the script put a short timeout on / waits for; everything else is scripted by position.
+//! Only non-awaiting calls follow an `unbind()`: an awaited call there races with the server's EOF inside the
+//! driver's `tokio::select!` (random choice, same in both APIs).  A mismatch must reproduce in 3 attempts.
+//!   R  sync.wire     the two wire transcripts (every byte the server received, split into messages) are identical
+//!   R  sync.results  the canonical results / errors / stream items / ids are identical, call by call
+//!   R  sync.watchdog neither run had to be ended by the server's idle watchdog
+//!   M  sync.row <Owner>.<fn>   the lane's own reading of /repo/src/sync.rs = the row of the regenerated Lean table
+//!   M  sync.faithful           = true
+use crate::fmtx::*;
+use crate::lanes::hostile::outer_total;
 use crate::out::Out;
 use crate::rng::Rng;
+use ldap3::adapters::{Adapter, EntriesOnly, PagedResults};
+use ldap3::controls::RawControl;
+use ldap3::exop::{Exop, WhoAmI};
+use ldap3::result::{CompareResult, ExopResult};
+use ldap3::{
+    DerefAliases, LdapConn, LdapConnAsync, LdapConnSettings, LdapError, LdapResult, Mod, ResultEntry, Scope, SearchOptions,
+    SearchResult, StdStream,
+};
+use std::collections::HashSet;
+use std::io::{Read, Write};
+use std::os::unix::net::UnixStream;
+use std::time::Duration;
 
-pub fn run(_thorough: bool, _rng: Rng, out: Out) {
-    out.finish("stub lane: nothing generated yet");
+/// client timeout used together with a silent server (real time)
+const SHORT_MS: u64 = 150;
+/// the server gives up on a client that sends nothing for this long (a hung call)
+const WATCHDOG: Duration = Duration::from_secs(4);
+
+/* ---------- server script ---------- */
+
+#[derive(Clone, Debug, PartialEq)]
+enum End {
+    /// final response with this result code; `cookie`: a Paged Results response control with this cookie
+    Done { rc: u8, cookie: Option<Vec<u8>>, extra_ctrl: bool },
+    Silence,
+    Disconnect,
+}
+
+/// what the server does with the k-th request that wants a response
+#[derive(Clone, Debug, PartialEq)]
+struct Beh {
+    /// Search only: entries (and one referral) sent first
+    entries: u8,
+    referral: bool,
+    end: End,
+}
+
+const OK: Beh = Beh { entries: 0, referral: false, end: End::Done { rc: 0, cookie: None, extra_ctrl: false } };
+
+fn beh_text(b: &Beh) -> String {
+    let e = match &b.end {
+        End::Done { rc, cookie, extra_ctrl } => format!(
+            "rc{}{}{}",
+            rc,
+            match cookie { Some(c) => format!("+cookie:{}", hex(c)), None => String::new() },
+            if *extra_ctrl { "+ctrl" } else { "" }
+        ),
+        End::Silence => String::from("silence"),
+        End::Disconnect => String::from("disconnect"),
+    };
+    if b.entries > 0 || b.referral { format!("{}e{}{}", b.entries, if b.referral { "+ref," } else { "," }, e) } else { e }
+}
+
+fn t(tag: u8, content: &[u8]) -> Vec<u8> {
+    let mut v = vec![tag];
+    let n = content.len();
+    if n < 128 {
+        v.push(n as u8);
+    } else if n < 256 {
+        v.extend([0x81, n as u8]);
+    } else {
+        v.extend([0x82, (n >> 8) as u8, n as u8]);
+    }
+    v.extend_from_slice(content);
+    v
+}
+
+fn cat(parts: &[Vec<u8>]) -> Vec<u8> {
+    parts.concat()
+}
+
+fn ldap_result(rc: u8) -> Vec<u8> {
+    let (m, tx): (&[u8], String) = if rc == 0 { (b"", String::new()) } else { (b"dc=matched", format!("diagnostic {}", rc)) };
+    let mut v = cat(&[t(0x0a, &[rc]), t(0x04, m), t(0x04, tx.as_bytes())]);
+    if rc == 10 {
+        v.extend(t(0xa3, &cat(&[t(0x04, b"ldap://a.example/dc=r"), t(0x04, b"ldap://b.example/")])));
+    }
+    v
+}
+
+fn resp_ctrls(cookie: &Option<Vec<u8>>, extra: bool) -> Option<Vec<u8>> {
+    let mut cs = vec![];
+    if extra {
+        cs.push(t(0x30, &cat(&[t(0x04, b"1.3.6.1.4.1.99999.1"), t(0x01, &[0xff]), t(0x04, b"\x00val")])));
+    }
+    if let Some(c) = cookie {
+        let val = t(0x30, &cat(&[t(0x02, &[0]), t(0x04, c)]));
+        cs.push(t(0x30, &cat(&[t(0x04, b"1.2.840.113556.1.4.319"), t(0x04, &val)])));
+    }
+    if cs.is_empty() { None } else { Some(t(0xa0, &cs.concat())) }
+}
+
+fn envelope(idtlv: &[u8], op: Vec<u8>, ctrls: Option<Vec<u8>>) -> Vec<u8> {
+    let mut body = idtlv.to_vec();
+    body.extend(op);
+    if let Some(c) = ctrls {
+        body.extend(c);
+    }
+    t(0x30, &body)
+}
+
+pub struct Served {
+    msgs: Vec<Vec<u8>>,
+    watchdog: bool,
+    used: usize,
+    silenced: usize,
+}
+
+/// a request containing these bytes gets its entries (if it is a Search) but never a final response
+const SILENT: &[u8] = b"zzsilent";
+/// a request containing these bytes gets its entries (if it is a Search), then the server closes the connection.
+/// (Asked for by the request and not by position, like silence: the generator makes the client WAIT for the end of
+/// exactly this operation.  A disconnect the client does not wait for races with its next call inside the driver's
+/// `tokio::select!`, which picks at random between "new operation" and "EOF" -- in both APIs alike.)
+const DISCONNECT: &[u8] = b"zzdisconnect";
+
+/// the scripted server: returns every message received
+fn serve(mut sock: UnixStream, behs: Vec<Beh>) -> Served {
+    let _ = sock.set_read_timeout(Some(WATCHDOG));
+    let mut acc: Vec<u8> = vec![];
+    let mut out = Served { msgs: vec![], watchdog: false, used: 0, silenced: 0 };
+    let mut buf = vec![0u8; 1 << 16];
+    let mut n_search = 0u32;
+    'conn: loop {
+        let n = match sock.read(&mut buf) {
+            Ok(0) => break,
+            Ok(n) => n,
+            Err(e) if e.kind() == std::io::ErrorKind::WouldBlock || e.kind() == std::io::ErrorKind::TimedOut => {
+                out.watchdog = true;
+                break;
+            }
+            Err(_) => break,
+        };
+        acc.extend_from_slice(&buf[..n]);
+        while let Some(total) = outer_total(&acc) {
+            if acc.len() < total {
+                break;
+            }
+            let msg: Vec<u8> = acc.drain(..total).collect();
+            let hdr = if msg[1] < 0x80 { 2 } else { 2 + (msg[1] & 0x7f) as usize };
+            let idlen = msg[hdr + 1] as usize;
+            let idtlv = msg[hdr..hdr + 2 + idlen].to_vec();
+            let op = msg[hdr + 2 + idlen];
+            out.msgs.push(msg);
+            let resp_tag = match op {
+                0x60 => 0x61,
+                0x63 => 0x65,
+                0x66 => 0x67,
+                0x68 => 0x69,
+                0x4a => 0x6b,
+                0x6c => 0x6d,
+                0x6e => 0x6f,
+                0x77 => 0x78,
+                _ => continue, // Unbind, Abandon, anything else: no response, no behaviour used up
+            };
+            let mut beh = behs.get(out.used).cloned().unwrap_or(OK);
+            out.used += 1;
+            // silence is asked for by the request itself (a marker in its DN / base / value), not by position: the
+            // operation it hits is then certainly the one the client put a short timeout on
+            if out.msgs.last().map(|m| m.windows(SILENT.len()).any(|w| w == SILENT)).unwrap_or(false) {
+                beh.end = End::Silence;
+                out.silenced += 1;
+            }
+            if out.msgs.last().map(|m| m.windows(DISCONNECT.len()).any(|w| w == DISCONNECT)).unwrap_or(false) {
+                beh.end = End::Disconnect;
+            }
+            let mut bytes = vec![];
+            if op == 0x63 {
+                n_search += 1;
+                for i in 0..beh.entries {
+                    let dn = format!("cn=e{},ou=s{},dc=example", i, n_search);
+                    let attrs = cat(&[
+                        t(0x30, &cat(&[t(0x04, b"cn"), t(0x31, &t(0x04, format!("e{}", i).as_bytes()))])),
+                        t(0x30, &cat(&[t(0x04, b"jpegPhoto;binary"), t(0x31, &cat(&[t(0x04, &[0xff, 0x00, i]), t(0x04, b"")]))])),
+                    ]);
+                    bytes.extend(envelope(&idtlv, t(0x64, &cat(&[t(0x04, dn.as_bytes()), t(0x30, &attrs)])), None));
+                    if beh.referral && i == 0 {
+                        bytes.extend(envelope(&idtlv, t(0x73, &t(0x04, b"ldap://ref.example/dc=x??sub")), None));
+                    }
+                }
+                if beh.referral && beh.entries == 0 {
+                    bytes.extend(envelope(&idtlv, t(0x73, &t(0x04, b"ldap://ref.example/dc=x??sub")), None));
+                }
+            }
+            match &beh.end {
+                End::Done { rc, cookie, extra_ctrl } => {
+                    let mut body = ldap_result(*rc);
+                    if op == 0x77 && *rc == 0 {
+                        body.extend(t(0x8b, b"dn:cn=who,dc=example"));
+                    }
+                    bytes.extend(envelope(&idtlv, t(resp_tag, &body), resp_ctrls(cookie, *extra_ctrl)));
+                    // a client that has gone away (unbind + close while answers are still on their way) is no reason
+                    // to stop recording what it sent
+                    let _ = sock.write_all(&bytes);
+                }
+                End::Silence => {
+                    let _ = sock.write_all(&bytes);
+                }
+                End::Disconnect => {
+                    let _ = sock.write_all(&bytes);
+                    break 'conn;
+                }
+            }
+        }
+    }
+    let _ = sock.shutdown(std::net::Shutdown::Both);
+    if !acc.is_empty() {
+        out.msgs.push(acc);
+    }
+    out
+}
+
+/* ---------- client script ---------- */
+
+#[derive(Clone, Debug)]
+struct RC {
+    oid: String,
+    crit: bool,
+    val: Option<Vec<u8>>,
+}
+
+#[derive(Clone, Debug)]
+struct Opts {
+    deref: u8,
+    types_only: bool,
+    time: i32,
+    size: i32,
+}
+
+#[derive(Clone, Debug)]
+struct Srch {
+    base: String,
+    scope: u8,
+    filter: String,
+    attrs: Vec<String>,
+}
+
+#[derive(Clone, Debug)]
+enum Ad {
+    /// `streaming_search`
+    Plain,
+    /// `streaming_search_with(EntriesOnly::new(), …)`
+    Entries,
+    /// `streaming_search_with(PagedResults::new(n), …)`
+    Paged(i32),
+    /// `streaming_search_with(vec![Box EntriesOnly, Box PagedResults(n)], …)`: the `Vec` instance of `IntoAdapterVec`
+    Chain(i32),
+    /// `streaming_search_with(vec![], …)`
+    Empty,
+}
+
+#[derive(Clone, Debug)]
+enum Act {
+    Next,
+    LastId,
+}
+
+#[derive(Clone, Debug)]
+enum AbId {
+    Last,
+    Fixed(i32),
+}
+
+#[derive(Clone, Debug)]
+enum Op {
+    Wc(Vec<RC>),
+    Wt(u64),
+    Wo(Opts),
+    Bind { dn: String, pw: String },
+    SaslExt,
+    Search(Srch),
+    Stream { s: Srch, ad: Ad, acts: Vec<Act>, finish: bool },
+    Add { dn: String, attrs: Vec<(Vec<u8>, Vec<Vec<u8>>)> },
+    Compare { dn: String, attr: String, val: Vec<u8> },
+    Delete { dn: String },
+    Modify { dn: String, mods: Vec<(u8, Vec<u8>, Vec<Vec<u8>>)> },
+    ModDn { dn: String, rdn: String, del: bool, sup: Option<String> },
+    WhoAmI,
+    Exop { name: String, val: Option<Vec<u8>> },
+    Abandon(AbId),
+    Unbind,
+    IsClosed,
+    LastId,
+    PeerCert,
+}
+
+fn vals_text(vs: &[Vec<u8>]) -> String {
+    vs.iter().map(|v| hex(v)).collect::<Vec<_>>().join(",")
+}
+
+fn srch_text(s: &Srch) -> String {
+    format!("{:?} {} {:?} {:?}", s.base, s.scope, s.filter, s.attrs)
+}
+
+fn op_text(o: &Op) -> String {
+    match o {
+        Op::Wc(cs) => format!(
+            "with_controls[{}]",
+            cs.iter().map(|c| format!("{}:{}:{}", c.oid, c.crit as u8, c.val.as_ref().map(|v| hex(v)).unwrap_or(String::from("none")))).collect::<Vec<_>>().join(",")
+        ),
+        Op::Wt(ms) => format!("with_timeout({}ms)", ms),
+        Op::Wo(o) => format!("with_search_options({},{},{},{})", o.deref, o.types_only as u8, o.time, o.size),
+        Op::Bind { dn, pw } => format!("simple_bind({:?},{:?})", dn, pw),
+        Op::SaslExt => String::from("sasl_external_bind()"),
+        Op::Search(s) => format!("search({})", srch_text(s)),
+        Op::Stream { s, ad, acts, finish } => format!(
+            "streaming_search[{:?}]({}){{{}{}}}",
+            ad,
+            srch_text(s),
+            acts.iter().map(|a| match a { Act::Next => "next", Act::LastId => "last_id" }).collect::<Vec<_>>().join(","),
+            if *finish { ";finish" } else { ";drop" }
+        ),
+        Op::Add { dn, attrs } => format!("add({:?},[{}])", dn, attrs.iter().map(|(n, vs)| format!("{}={}", hex(n), vals_text(vs))).collect::<Vec<_>>().join(";")),
+        Op::Compare { dn, attr, val } => format!("compare({:?},{:?},{})", dn, attr, hex(val)),
+        Op::Delete { dn } => format!("delete({:?})", dn),
+        Op::Modify { dn, mods } => format!("modify({:?},[{}])", dn, mods.iter().map(|(k, n, vs)| format!("{}:{}={}", k, hex(n), vals_text(vs))).collect::<Vec<_>>().join(";")),
+        Op::ModDn { dn, rdn, del, sup } => format!("modifydn({:?},{:?},{},{:?})", dn, rdn, del, sup),
+        Op::WhoAmI => String::from("extended(WhoAmI)"),
+        Op::Exop { name, val } => format!("extended({:?},{})", name, val.as_ref().map(|v| hex(v)).unwrap_or(String::from("none"))),
+        Op::Abandon(AbId::Last) => String::from("abandon(last_id())"),
+        Op::Abandon(AbId::Fixed(i)) => format!("abandon({})", i),
+        Op::Unbind => String::from("unbind()"),
+        Op::IsClosed => String::from("is_closed()"),
+        Op::LastId => String::from("last_id()"),
+        Op::PeerCert => String::from("get_peer_certificate()"),
+    }
+}
+
+fn op_kind(o: &Op) -> &'static str {
+    match o {
+        Op::Wc(_) => "with_controls",
+        Op::Wt(_) => "with_timeout",
+        Op::Wo(_) => "with_search_options",
+        Op::Bind { .. } => "simple_bind",
+        Op::SaslExt => "sasl_external_bind",
+        Op::Search(_) => "search",
+        Op::Stream { ad: Ad::Plain, .. } => "streaming_search",
+        Op::Stream { ad: Ad::Entries, .. } => "streaming_search_with(EntriesOnly)",
+        Op::Stream { ad: Ad::Paged(_), .. } => "streaming_search_with(PagedResults)",
+        Op::Stream { ad: Ad::Chain(_), .. } => "streaming_search_with(vec![EntriesOnly,PagedResults])",
+        Op::Stream { ad: Ad::Empty, .. } => "streaming_search_with(vec![])",
+        Op::Add { .. } => "add",
+        Op::Compare { .. } => "compare",
+        Op::Delete { .. } => "delete",
+        Op::Modify { .. } => "modify",
+        Op::ModDn { .. } => "modifydn",
+        Op::WhoAmI | Op::Exop { .. } => "extended",
+        Op::Abandon(_) => "abandon",
+        Op::Unbind => "unbind",
+        Op::IsClosed => "is_closed",
+        Op::LastId => "last_id",
+        Op::PeerCert => "get_peer_certificate",
+    }
+}
+
+/* ---------- canonical results ---------- */
+
+fn err_text(e: &LdapError) -> String {
+    let d = format!("{:?}", e);
+    let word = d.split(|c: char| !c.is_alphanumeric()).next().unwrap_or("?").to_string();
+    match e {
+        LdapError::Io { source } => format!("err:Io:{:?}", source.kind()),
+        LdapError::LdapResult { result } => format!("err:LdapResult:{}", result.rc),
+        _ => format!("err:{}", word),
+    }
+}
+
+fn res_text(r: &LdapResult) -> String {
+    format!(
+        "rc={} m={:?} t={:?} refs={:?} ctrls=[{}]",
+        r.rc,
+        r.matched,
+        r.text,
+        r.refs,
+        r.ctrls.iter().map(|c| format!("{:?}/{}:{}:{}", c.0, c.1.ctype, c.1.crit as u8, c.1.val.as_ref().map(|v| hex(v)).unwrap_or(String::from("none")))).collect::<Vec<_>>().join(",")
+    )
+}
+
+fn entry_text(e: &ResultEntry) -> String {
+    format!("{}#{}", tlv(&e.0), e.1.len())
+}
+
+fn lres(r: Result<LdapResult, LdapError>) -> String {
+    match r {
+        Ok(r) => res_text(&r),
+        Err(e) => err_text(&e),
+    }
+}
+
+fn cres(r: Result<CompareResult, LdapError>) -> String {
+    lres(r.map(|c| c.0))
+}
+
+fn xres(r: Result<ExopResult, LdapError>) -> String {
+    match r {
+        Ok(ExopResult(x, r)) => format!("exop={:?}/{} {}", x.name, x.val.as_ref().map(|v| hex(v)).unwrap_or(String::from("none")), res_text(&r)),
+        Err(e) => err_text(&e),
+    }
+}
+
+fn sres(r: Result<SearchResult, LdapError>) -> String {
+    match r {
+        Ok(SearchResult(es, r)) => format!("entries=[{}] {}", es.iter().map(entry_text).collect::<Vec<_>>().join(";"), res_text(&r)),
+        Err(e) => err_text(&e),
+    }
+}
+
+fn ures(r: Result<(), LdapError>) -> String {
+    match r {
+        Ok(()) => String::from("ok"),
+        Err(e) => err_text(&e),
+    }
+}
+
+fn next_text(r: Result<Option<ResultEntry>, LdapError>) -> String {
+    match r {
+        Ok(Some(e)) => format!("item:{}", entry_text(&e)),
+        Ok(None) => String::from("end"),
+        Err(e) => err_text(&e),
+    }
+}
+
+fn cert_text(r: Result<Option<Vec<u8>>, LdapError>) -> String {
+    match r {
+        Ok(Some(c)) => format!("cert:{}", hex(&c)),
+        Ok(None) => String::from("no-cert"),
+        Err(e) => err_text(&e),
+    }
+}
+
+/* ---------- arguments ---------- */
+
+fn raw(c: &RC) -> RawControl {
+    RawControl { ctype: c.oid.clone(), crit: c.crit, val: c.val.clone() }
+}
+
+fn scope_of(n: u8) -> Scope {
+    match n {
+        0 => Scope::Base,
+        1 => Scope::OneLevel,
+        _ => Scope::Subtree,
+    }
+}
+
+fn sopts(o: &Opts) -> SearchOptions {
+    let d = match o.deref {
+        0 => DerefAliases::Never,
+        1 => DerefAliases::Searching,
+        2 => DerefAliases::Finding,
+        _ => DerefAliases::Always,
+    };
+    SearchOptions::new().deref(d).typesonly(o.types_only).timelimit(o.time).sizelimit(o.size)
+}
+
+fn add_arg(attrs: &[(Vec<u8>, Vec<Vec<u8>>)]) -> Vec<(Vec<u8>, HashSet<Vec<u8>>)> {
+    attrs.iter().map(|(n, vs)| (n.clone(), vs.iter().cloned().collect())).collect()
+}
+
+fn mod_arg(mods: &[(u8, Vec<u8>, Vec<Vec<u8>>)]) -> Vec<Mod<Vec<u8>>> {
+    mods.iter()
+        .map(|(k, n, vs)| {
+            let set: HashSet<Vec<u8>> = vs.iter().cloned().collect();
+            match k {
+                0 => Mod::Add(n.clone(), set),
+                1 => Mod::Delete(n.clone(), set),
+                2 => Mod::Replace(n.clone(), set),
+                _ => Mod::Increment(n.clone(), vs.first().cloned().unwrap_or_default()),
+            }
+        })
+        .collect()
+}
+
+type Chain<'a> = Vec<Box<dyn Adapter<'a, String, Vec<String>> + 'a>>;
+
+fn chain<'a>(n: i32) -> Chain<'a> {
+    vec![Box::new(EntriesOnly::new()), Box::new(PagedResults::new(n))]
+}
+
+fn no_adapters<'a>() -> Chain<'a> {
+    vec![]
+}
+
+/* ---------- ONE definition of "run this call", expanded for both APIs ---------- */
+
+macro_rules! sync_finish { ($st:ident) => { $st.result() }; }
+macro_rules! async_finish { ($st:ident) => { $st.finish().await }; }
+macro_rules! sync_stream_id { ($st:ident) => { $st.last_id() }; }
+macro_rules! async_stream_id { ($st:ident) => { $st.ldap_handle().last_id() }; }
+
+macro_rules! exec_op {
+    ($h:ident, $op:expr, [$($aw:tt)*], $finish:ident, $stream_id:ident) => {
+        match $op {
+            Op::Wc(cs) => {
+                if cs.len() == 1 && cs[0].val.is_none() {
+                    $h.with_controls(raw(&cs[0])); // the single-control form of IntoRawControlVec
+                } else {
+                    $h.with_controls(cs.iter().map(raw).collect::<Vec<_>>());
+                }
+                String::from("-")
+            }
+            Op::Wt(ms) => {
+                $h.with_timeout(Duration::from_millis(*ms));
+                String::from("-")
+            }
+            Op::Wo(o) => {
+                $h.with_search_options(sopts(o));
+                String::from("-")
+            }
+            Op::Bind { dn, pw } => lres($h.simple_bind(dn, pw)$($aw)*),
+            Op::SaslExt => lres($h.sasl_external_bind()$($aw)*),
+            Op::Search(s) => sres($h.search(&s.base, scope_of(s.scope), &s.filter, s.attrs.clone())$($aw)*),
+            Op::Stream { s, ad, acts, finish } => {
+                let (b, sc, f, at) = (s.base.as_str(), scope_of(s.scope), s.filter.as_str(), s.attrs.clone());
+                let opened = match ad {
+                    Ad::Plain => $h.streaming_search(b, sc, f, at)$($aw)*,
+                    Ad::Entries => $h.streaming_search_with(EntriesOnly::new(), b, sc, f, at)$($aw)*,
+                    Ad::Paged(n) => $h.streaming_search_with(PagedResults::new(*n), b, sc, f, at)$($aw)*,
+                    Ad::Chain(n) => $h.streaming_search_with(chain(*n), b, sc, f, at)$($aw)*,
+                    Ad::Empty => $h.streaming_search_with(no_adapters(), b, sc, f, at)$($aw)*,
+                };
+                match opened {
+                    Err(e) => format!("open:{}", err_text(&e)),
+                    Ok(mut st) => {
+                        let mut items = vec![String::from("open:ok")];
+                        for a in acts {
+                            match a {
+                                Act::Next => items.push(next_text(st.next()$($aw)*)),
+                                Act::LastId => items.push(format!("id={}", $stream_id!(st))),
+                            }
+                        }
+                        if *finish {
+                            let r = $finish!(st);
+                            items.push(format!("finish:{}", res_text(&r)));
+                        } else {
+                            drop(st);
+                            items.push(String::from("dropped"));
+                        }
+                        items.join(" ; ")
+                    }
+                }
+            }
+            Op::Add { dn, attrs } => lres($h.add(dn, add_arg(attrs))$($aw)*),
+            Op::Compare { dn, attr, val } => cres($h.compare(dn, attr, val.clone())$($aw)*),
+            Op::Delete { dn } => lres($h.delete(dn)$($aw)*),
+            Op::Modify { dn, mods } => lres($h.modify(dn, mod_arg(mods))$($aw)*),
+            Op::ModDn { dn, rdn, del, sup } => lres($h.modifydn(dn, rdn, *del, sup.as_deref())$($aw)*),
+            Op::WhoAmI => xres($h.extended(WhoAmI)$($aw)*),
+            Op::Exop { name, val } => xres($h.extended(Exop { name: Some(name.clone()), val: val.clone() })$($aw)*),
+            Op::Abandon(AbId::Last) => {
+                let id = $h.last_id();
+                format!("id={} {}", id, ures($h.abandon(id)$($aw)*))
+            }
+            Op::Abandon(AbId::Fixed(i)) => ures($h.abandon(*i)$($aw)*),
+            Op::Unbind => ures($h.unbind()$($aw)*),
+            Op::IsClosed => format!("closed={}", $h.is_closed()),
+            Op::LastId => format!("id={}", $h.last_id()),
+            Op::PeerCert => cert_text($h.get_peer_certificate()$($aw)*),
+        }
+    };
+}
+
+pub struct Obs {
+    results: Vec<String>,
+    served: Served,
+}
+
+fn the_url() -> url::Url {
+    url::Url::parse("ldapi://ignored").expect("url")
+}
+
+fn run_sync(script: &[Op], behs: &[Beh]) -> Result<Obs, String> {
+    let (client, server) = UnixStream::pair().map_err(|e| e.to_string())?;
+    let behs = behs.to_vec();
+    let srv = std::thread::spawn(move || serve(server, behs));
+    let settings = LdapConnSettings::new().set_std_stream(StdStream::Unix(client));
+    let mut conn = LdapConn::from_url_with_settings(settings, &the_url()).map_err(|e| format!("sync connect: {:?}", e))?;
+    let mut results = vec![];
+    for op in script {
+        let h = &mut conn;
+        results.push(exec_op!(h, op, [], sync_finish, sync_stream_id));
+    }
+    drop(conn);
+    let served = srv.join().map_err(|_| String::from("server thread panicked"))?;
+    Ok(Obs { results, served })
+}
+
+fn run_async(script: &[Op], behs: &[Beh]) -> Result<Obs, String> {
+    let (client, server) = UnixStream::pair().map_err(|e| e.to_string())?;
+    let behs = behs.to_vec();
+    let srv = std::thread::spawn(move || serve(server, behs));
+    let rt = tokio::runtime::Builder::new_current_thread().enable_all().build().map_err(|e| e.to_string())?;
+    let results = rt.block_on(async {
+        let settings = LdapConnSettings::new().set_std_stream(StdStream::Unix(client));
+        let (conn, mut ldap) = LdapConnAsync::from_url_with_settings(settings, &the_url()).await.map_err(|e| format!("async connect: {:?}", e))?;
+        ldap3::drive!(conn);
+        let mut results = vec![];
+        for op in script {
+            let h = &mut ldap;
+            results.push(exec_op!(h, op, [.await], async_finish, async_stream_id));
+        }
+        Ok::<_, String>(results)
+    });
+    drop(rt);
+    let served = srv.join().map_err(|_| String::from("server thread panicked"))?;
+    Ok(Obs { results: results?, served })
+}
+
+/* ---------- generators ---------- */
+
+const FILTERS: &[&str] = &["(objectClass=*)", "(cn=abc)", "(&(a=b)(!(c=d)))", "(|(cn=a*b*c)(sn>=x))", "(cn=\\2a\\00\\ff)", "(uid:dn:caseIgnoreMatch:=x)"];
+const BAD_FILTERS: &[&str] = &["(", "(cn=a", "", "(cn)"];
+const RCS: &[u8] = &[1, 2, 3, 4, 5, 6, 7, 10, 11, 16, 19, 20, 21, 32, 34, 48, 49, 50, 51, 52, 53, 64, 65, 68, 80, 118, 120];
+
+fn gen_str(rng: &mut Rng) -> String {
+    match rng.below(12) {
+        0 => String::new(),
+        1 => String::from("cn=\u{e9}\u{1d11e},dc=x"),
+        2 => String::from_utf8(crate::gen::utf8_string(rng, 10)).unwrap_or_default(),
+        _ => format!("cn=u{},ou=p{},dc=example,dc=org", rng.below(1000), rng.below(10)),
+    }
+}
+
+fn gen_bytes(rng: &mut Rng) -> Vec<u8> {
+    match rng.below(8) {
+        0 => vec![],
+        1 => vec![0],
+        2 => vec![0xff, 0xfe, 0x80],
+        3 => vec![b'x'; 300],
+        _ => rng.bytes_below(12),
+    }
+}
+
+fn gen_ctrls(rng: &mut Rng) -> Vec<RC> {
+    let n = rng.below(4) as usize;
+    (0..n)
+        .map(|_| RC {
+            oid: if rng.chance(1, 8) { String::from("1.2.840.113556.1.4.319") } else { format!("1.3.6.1.4.1.{}.{}", rng.below(70000), rng.below(9)) },
+            crit: rng.chance(1, 2),
+            val: if rng.chance(1, 2) { Some(gen_bytes(rng)) } else { None },
+        })
+        .collect()
+}
+
+fn gen_srch(rng: &mut Rng) -> Srch {
+    Srch {
+        base: gen_str(rng),
+        scope: rng.below(3) as u8,
+        filter: if rng.chance(1, 15) { rng.pick(BAD_FILTERS).to_string() } else { rng.pick(FILTERS).to_string() },
+        attrs: (0..rng.below(3)).map(|i| if rng.chance(1, 4) { String::from("*") } else { format!("attr{}", i) }).collect(),
+    }
+}
+
+/// put the silence marker into the request; false if the operation has no place for it
+fn mark(op: &mut Op, marker: &[u8]) -> bool {
+    let m = |s: &mut String| { *s = format!("o={},{}", std::str::from_utf8(marker).unwrap(), s); true };
+    match op {
+        Op::Bind { dn, .. } | Op::Add { dn, .. } | Op::Compare { dn, .. } | Op::Delete { dn } | Op::Modify { dn, .. } | Op::ModDn { dn, .. } => m(dn),
+        Op::Search(s) | Op::Stream { s, .. } => m(&mut s.base),
+        Op::Exop { val, .. } => { *val = Some(marker.to_vec()); true }
+        _ => false,
+    }
+}
+
+/// how one request ends (silence is not scripted by position: see `mark_silent`)
+fn gen_end(rng: &mut Rng, _silent: bool, cookie: Option<Vec<u8>>) -> End {
+    match rng.below(40) {
+        0..=7 => End::Done { rc: *rng.pick(RCS), cookie: None, extra_ctrl: rng.chance(1, 3) },
+        _ => End::Done { rc: 0, cookie, extra_ctrl: rng.chance(1, 8) },
+    }
+}
+
+fn gen_search_beh(rng: &mut Rng, silent: bool, cookie: Option<Vec<u8>>) -> Beh {
+    Beh { entries: *rng.pick(&[0u8, 0, 1, 1, 2, 3, 5]), referral: rng.chance(1, 6), end: gen_end(rng, silent, cookie) }
+}
+
+/// a script and the server's behaviour; `n_silent`: operations that run into the client timeout
+fn gen_script(rng: &mut Rng, allow_silence: bool) -> (Vec<Op>, Vec<Beh>, usize) {
+    let n = rng.range(1, 12) as usize;
+    let mut ops = vec![];
+    let mut behs = vec![];
+    let mut n_silent = 0;
+    let mut disconnected = false;
+    let mut unbound = false;
+    while ops.len() < n {
+        let last = ops.len() + 1 >= n;
+        if unbound {
+            // An awaited call after `unbind` races with the server's EOF inside the driver's `tokio::select!` (OpSend or
+            // ResultRecv, at random, in both APIs): only calls that do not touch the runtime follow an Unbind.
+            ops.push(match rng.below(4) { 0 => Op::IsClosed, 1 => Op::LastId, 2 => Op::Wc(gen_ctrls(rng)), _ => Op::Wt(1000) });
+            continue;
+        }
+        match rng.below(30) {
+            0..=2 => { ops.push(Op::Wc(gen_ctrls(rng))); continue; }
+            3 => { ops.push(Op::Wt(60_000 + rng.below(1000) * 1000)); continue; }
+            4..=5 => { ops.push(Op::Wo(Opts { deref: rng.below(4) as u8, types_only: rng.chance(1, 2), time: *rng.pick(&[0, 1, 30, 2147483647]), size: *rng.pick(&[0, 1, 500, 65536]) })); continue; }
+            6 => { ops.push(Op::IsClosed); continue; }
+            7 => { ops.push(Op::LastId); continue; }
+            8 => { ops.push(if rng.chance(1, 3) { Op::PeerCert } else { Op::Abandon(if rng.chance(1, 2) { AbId::Last } else { AbId::Fixed(*rng.pick(&[0, 1, 2, 77, -1, 2147483647])) }) }); continue; }
+            9 => { if last || rng.chance(1, 4) { ops.push(Op::Unbind); unbound = true; } else { ops.push(Op::IsClosed); } continue; }
+            _ => {}
+        }
+
+        // an operation that expects an answer
+        let silent = allow_silence && n_silent == 0 && rng.chance(1, 14);
+        if silent {
+            n_silent += 1;
+            ops.push(Op::Wt(SHORT_MS));
+            if rng.chance(1, 3) {
+                ops.push(Op::Wc(gen_ctrls(rng)));
+            }
+        }
+        let single = |rng: &mut Rng, behs: &mut Vec<Beh>| behs.push(Beh { entries: 0, referral: false, end: gen_end(rng, silent, None) });
+        match rng.below(22) {
+            0..=1 => { single(rng, &mut behs); ops.push(Op::Bind { dn: gen_str(rng), pw: gen_str(rng) }); }
+            2 => { single(rng, &mut behs); ops.push(Op::SaslExt); }
+            3..=5 => {
+                let s = gen_srch(rng);
+                if !BAD_FILTERS.contains(&s.filter.as_str()) {
+                    behs.push(gen_search_beh(rng, silent, None));
+                }
+                ops.push(Op::Search(s));
+            }
+            6..=11 => {
+                let s = gen_srch(rng);
+                let ad = match rng.below(9) {
+                    0..=2 => Ad::Plain,
+                    3..=4 => Ad::Entries,
+                    5..=6 => Ad::Paged(*rng.pick(&[1, 2, 100])),
+                    7 => Ad::Chain(*rng.pick(&[1, 3])),
+                    _ => Ad::Empty,
+                };
+                let mut total = 0usize;
+                if !BAD_FILTERS.contains(&s.filter.as_str()) {
+                    let pages = if matches!(ad, Ad::Paged(_) | Ad::Chain(_)) { rng.range(1, 3) } else { 1 };
+                    for p in 0..pages {
+                        let cookie = if matches!(ad, Ad::Paged(_) | Ad::Chain(_)) {
+                            if p + 1 < pages { Some(vec![b'c', p as u8 + 1]) } else if rng.chance(1, 2) { Some(vec![]) } else { None }
+                        } else if rng.chance(1, 10) { Some(vec![9, 9]) } else { None };
+                        let b = gen_search_beh(rng, silent, cookie);
+                        total += b.entries as usize + b.referral as usize + 1;
+                        let stop = !matches!(b.end, End::Done { rc: 0, .. });
+                        behs.push(b);
+                        if stop {
+                            break;
+                        }
+                    }
+                }
+                let want = match rng.below(4) { 0 => rng.below(total as u64 + 1) as usize, _ => total + rng.below(3) as usize };
+                let mut acts = vec![];
+                for _ in 0..want {
+                    if rng.chance(1, 6) {
+                        acts.push(Act::LastId);
+                    }
+                    acts.push(Act::Next);
+                }
+                if rng.chance(1, 4) {
+                    acts.push(Act::LastId);
+                }
+                ops.push(Op::Stream { s, ad, acts, finish: rng.chance(5, 6) });
+            }
+            12..=13 => {
+                let attrs: Vec<(Vec<u8>, Vec<Vec<u8>>)> = (0..rng.below(4)).map(|i| (format!("a{}", i).into_bytes(), if rng.chance(1, 10) { vec![] } else { vec![gen_bytes(rng)] })).collect();
+                if attrs.iter().all(|(_, vs)| !vs.is_empty()) {
+                    single(rng, &mut behs);
+                }
+                ops.push(Op::Add { dn: gen_str(rng), attrs });
+            }
+            14 => { single(rng, &mut behs); ops.push(Op::Compare { dn: gen_str(rng), attr: String::from("cn"), val: gen_bytes(rng) }); if let Some(Beh { end: End::Done { rc, .. }, .. }) = behs.last_mut() { if *rc == 0 { *rc = *rng.pick(&[5, 6]); } } }
+            15..=16 => { single(rng, &mut behs); ops.push(Op::Delete { dn: gen_str(rng) }); }
+            17..=18 => {
+                let mods: Vec<(u8, Vec<u8>, Vec<Vec<u8>>)> = (0..rng.below(4))
+                    .map(|i| {
+                        let k = rng.below(4) as u8;
+                        let vs = if k == 3 || rng.chance(4, 5) { vec![gen_bytes(rng)] } else { vec![] };
+                        (k, format!("m{}", i).into_bytes(), vs)
+                    })
+                    .collect();
+                if mods.iter().all(|(k, _, vs)| *k != 0 || !vs.is_empty()) {
+                    single(rng, &mut behs);
+                }
+                ops.push(Op::Modify { dn: gen_str(rng), mods });
+            }
+            19 => { single(rng, &mut behs); ops.push(Op::ModDn { dn: gen_str(rng), rdn: format!("cn=n{}", rng.below(100)), del: rng.chance(1, 2), sup: if rng.chance(1, 2) { Some(gen_str(rng)) } else { None } }); }
+            _ => {
+                single(rng, &mut behs);
+                ops.push(if rng.chance(2, 3) { Op::WhoAmI } else { Op::Exop { name: format!("1.3.6.1.4.1.4203.1.11.{}", rng.below(9)), val: if rng.chance(1, 2) { Some(gen_bytes(rng)) } else { None } } });
+            }
+        }
+        if silent {
+            if let Some(op) = ops.last_mut() {
+                mark(op, SILENT);
+            }
+        } else if !disconnected && rng.chance(1, 25) {
+            if let Some(op) = ops.last_mut() {
+                if mark(op, DISCONNECT) {
+                    disconnected = true;
+                    // the client reads the stream to its (bitter) end
+                    if let Op::Stream { acts, finish, .. } = op {
+                        *acts = vec![Act::Next; 9];
+                        *finish = true;
+                    }
+                }
+            }
+        }
+    }
+    (ops, behs, n_silent)
+}
+
+/* ---------- comparing ---------- */
+
+fn wire_text(msgs: &[Vec<u8>]) -> String {
+    msgs.iter().map(|m| hex(m)).collect::<Vec<_>>().join(" ")
+}
+
+fn short(s: &str) -> String {
+    if s.len() > 400 {
+        let mut cut = 400;
+        while !s.is_char_boundary(cut) {
+            cut -= 1;
+        }
+        format!("{}…({} chars)", &s[..cut], s.len())
+    } else {
+        s.to_string()
+    }
+}
+
+fn first_diff(a: &[String], b: &[String]) -> String {
+    for (i, (x, y)) in a.iter().zip(b.iter()).enumerate() {
+        if x != y {
+            return format!("call {}: sync `{}` async `{}`", i, short(x), short(y));
+        }
+    }
+    format!("lengths {} vs {}", a.len(), b.len())
+}
+
+fn case(out: &mut Out, label: &str, ops: &[Op], behs: &[Beh], n_silent: usize) {
+    let text = format!("{} || server: {}", ops.iter().map(op_text).collect::<Vec<_>>().join(" ; "), behs.iter().map(beh_text).collect::<Vec<_>>().join(" "));
+    let text = text.replace('\t', " ");
+    let desc = short(&text);
+    out.stat(&format!("{}.len{:02}", label, ops.len()));
+    for o in ops {
+        out.stat(&format!("call.{}", op_kind(o)));
+    }
+    for b in behs {
+        out.stat(&format!("server.{}", match &b.end { End::Done { rc: 0, .. } => "success", End::Done { .. } => "error-code", End::Silence => "silence", End::Disconnect => "disconnect" }));
+    }
+    let mut attempt = 0;
+    loop {
+        attempt += 1;
+        let s = run_sync(ops, behs);
+        let a = run_async(ops, behs);
+        let (s, a) = match (s, a) {
+            (Ok(s), Ok(a)) => (s, a),
+            (s, a) => {
+                out.case(&text, false);
+                out.r(&format!("sync.completes {}", desc), false, &format!("sync: {:?} async: {:?}", s.err(), a.err()));
+                return;
+            }
+        };
+        let wire_ok = s.served.msgs == a.served.msgs;
+        let res_ok = s.results == a.results;
+        if !(wire_ok && res_ok) && attempt < 3 {
+            // a mismatch must be reproducible to count: timing (a spurious 150 ms timeout on a loaded machine, the
+            // server's EOF overtaking `is_closed()` after an Unbind) is not a property of the façade
+            if std::env::var("VERIF_SYNC_DEBUG").is_ok() {
+                eprintln!("RETRY {}\n  results: {}\n  wire equal: {}", text, first_diff(&s.results, &a.results), wire_ok);
+            }
+            out.stat(if n_silent > 0 { "retried-after-mismatch.short-timeout-script" } else { "retried-after-mismatch.other-script" });
+            continue;
+        }
+        out.case(&text, !s.served.msgs.is_empty());
+        out.stat_n("wire.messages", s.served.msgs.len() as u64);
+        out.stat_n("server.silenced-requests", s.served.silenced as u64);
+        out.stat(if s.served.used == behs.len() { "server.script-used-up" } else { "server.script-partly-used" });
+        out.r(&format!("sync.wire {}", desc), wire_ok, &format!("sync [{}] async [{}]", short(&wire_text(&s.served.msgs)), short(&wire_text(&a.served.msgs))));
+        out.r(&format!("sync.results {}", desc), res_ok, &first_diff(&s.results, &a.results));
+        out.r(&format!("sync.watchdog {}", desc), !s.served.watchdog && !a.served.watchdog, &format!("a call hung until the server's idle watchdog closed the connection; script: {} ; sync results: {}", text, s.results.join(" | ")));
+        for r in &s.results {
+            out.stat(&format!("outcome.{}", if r.starts_with("err:") || r.starts_with("open:err") { r.split(' ').next().unwrap_or("?").to_string() } else if r.contains("rc=0") || r == "-" || r == "ok" { String::from("ok") } else { String::from("other") }));
+        }
+        return;
+    }
+}
+
+/* ---------- the lane's own reading of sync.rs (ties the translator) ---------- */
+
+fn squeeze(s: &str) -> String {
+    s.chars().filter(|c| !c.is_whitespace()).collect()
+}
+
+fn between<'a>(s: &'a str, a: &str, b: &str) -> Option<&'a str> {
+    let i = s.find(a)? + a.len();
+    let j = s[i..].find(b)? + i;
+    Some(&s[i..j])
+}
+
+/// `(Owner.fn, expected row text)` for every `pub fn` outside cfg(feature) items
+fn read_sync_rs(src: &str) -> Vec<(String, String)> {
+    let code: String = src.lines().map(|l| match l.find("//") { Some(i) => &l[..i], None => l }).collect::<Vec<_>>().join("\n");
+    let split = code.find("pub struct EntryStream").unwrap_or(code.len());
+    let mut rows = vec![];
+    let mut starts: Vec<usize> = code.match_indices("pub fn ").map(|(i, _)| i).collect();
+    starts.push(code.len());
+    for w in starts.windows(2) {
+        let (i, j) = (w[0], w[1]);
+        let owner = if i < split { "LdapConn" } else { "EntryStream" };
+        let before = &code[..i];
+        let attrs = &before[before.rfind(|c| c == '}' || c == '{').map(|k| k + 1).unwrap_or(0)..];
+        if attrs.contains("#[cfg(feature") {
+            continue;
+        }
+        let chunk = &code[i + 7..j];
+        let name: String = chunk.chars().take_while(|c| c.is_alphanumeric() || *c == '_').collect();
+        let body_start = match chunk.find('{') { Some(k) => k, None => continue };
+        let body_end = chunk.rfind('}').unwrap_or(chunk.len());
+        // the last `}` of the chunk may close the impl block: take the body up to the last `}` that balances
+        let mut depth = 0i32;
+        let mut end = body_end;
+        for (k, c) in chunk[body_start..].char_indices() {
+            if c == '{' { depth += 1; }
+            if c == '}' { depth -= 1; if depth == 0 { end = body_start + k; break; } }
+        }
+        let b = squeeze(&chunk[body_start + 1..end]);
+        let row = if b.contains("runtime::Builder::new_") {
+            format!(
+                "connect {} {} {}",
+                between(&b, "Builder::new_", "()").unwrap_or("?"),
+                between(&b, "=match", ".await").unwrap_or("?"),
+                if b.contains("drive!(conn);") { "driven" } else { "NOT-driven" }
+            )
+        } else if b.contains("rt.block_on(asyncmove{") {
+            let rt = if b.contains("letrt=&mutself.conn.rt;") { "self.conn.rt" } else if b.contains("letrt=&mutself.rt;") { "self.rt" } else { "?" };
+            format!(
+                "block_on({}) {} -> {}",
+                rt,
+                between(&b, "rt.block_on(asyncmove{", ".await").unwrap_or("?"),
+                if b.contains("Ok(EntryStream{stream,conn:self})") { "entry_stream" } else { "unchanged" }
+            )
+        } else if b.starts_with("self.ldap.") && b.ends_with(";self") && b.contains('=') {
+            format!("assign ldap.{}", &b["self.ldap.".len()..b.len() - ";self".len()])
+        } else if let Some(k) = b.find("Self::") {
+            let call = &b[k..];
+            let call = if b.starts_with("leturl=Url::parse(url)?;") { call.replace("&url", "&Url::parse(url)?") } else { call.to_string() };
+            format!("delegate {}", call)
+        } else if let Some(rest) = b.strip_prefix("self.stream.ldap_handle().") {
+            format!("direct stream.ldap_handle().{}", rest)
+        } else if let Some(rest) = b.strip_prefix("self.ldap.") {
+            let ident: String = rest.chars().take_while(|c| c.is_alphanumeric() || *c == '_').collect();
+            if rest[ident.len()..].starts_with('(') { format!("direct ldap.{}", rest) } else { format!("inline ldap.{}", rest) }
+        } else {
+            format!("UNREADABLE {}", b)
+        };
+        rows.push((format!("{}.{}", owner, name), row));
+    }
+    rows
+}
+
+pub fn run(thorough: bool, mut rng: Rng, mut out: Out) {
+    // the translator tie
+    match std::fs::read_to_string("/repo/src/sync.rs") {
+        Ok(src) => {
+            let rows = read_sync_rs(&src);
+            out.stat_n("table.rows-read-by-the-lane", rows.len() as u64);
+            for (k, row) in rows {
+                out.m(&format!("sync.row {}", k), &row);
+            }
+            out.m("sync.faithful", "true");
+        }
+        Err(e) => out.r("sync.table-source /repo/src/sync.rs", false, &e.to_string()),
+    }
+    // corpus: one call of every kind against a friendly server, the modifiers before a search, the failure modes
+    let s0 = Srch { base: String::from("dc=example"), scope: 2, filter: String::from("(objectClass=*)"), attrs: vec![String::from("cn")] };
+    let e3 = Beh { entries: 3, referral: true, end: End::Done { rc: 0, cookie: None, extra_ctrl: false } };
+    let page = |c: &[u8]| Beh { entries: 2, referral: false, end: End::Done { rc: 0, cookie: Some(c.to_vec()), extra_ctrl: false } };
+    let ctrl = RC { oid: String::from("2.16.840.1.113730.3.4.2"), crit: true, val: None };
+    let corpus: Vec<(Vec<Op>, Vec<Beh>, usize)> = vec![
+        (
+            vec![
+                Op::Bind { dn: String::from("cn=admin,dc=example"), pw: String::from("secret") }, Op::SaslExt, Op::Search(s0.clone()),
+                Op::Add { dn: String::from("cn=a,dc=example"), attrs: vec![(b"cn".to_vec(), vec![b"a".to_vec()])] },
+                Op::Compare { dn: String::from("cn=a,dc=example"), attr: String::from("cn"), val: b"a".to_vec() },
+                Op::Modify { dn: String::from("cn=a,dc=example"), mods: vec![(2, b"sn".to_vec(), vec![b"x".to_vec()]), (1, b"description".to_vec(), vec![])] },
+                Op::ModDn { dn: String::from("cn=a,dc=example"), rdn: String::from("cn=b"), del: true, sup: Some(String::from("ou=p,dc=example")) },
+                Op::Delete { dn: String::from("cn=b,ou=p,dc=example") }, Op::WhoAmI, Op::LastId, Op::Abandon(AbId::Last), Op::PeerCert, Op::IsClosed, Op::Unbind, Op::IsClosed, Op::LastId,
+            ],
+            vec![OK, OK, e3.clone(), OK, Beh { entries: 0, referral: false, end: End::Done { rc: 6, cookie: None, extra_ctrl: true } }, OK, OK, OK, OK],
+            0,
+        ),
+        (
+            vec![
+                Op::Wc(vec![ctrl.clone()]), Op::Wt(90_000), Op::Wo(Opts { deref: 3, types_only: true, time: 7, size: 9 }),
+                Op::Stream { s: s0.clone(), ad: Ad::Plain, acts: vec![Act::Next, Act::LastId, Act::Next, Act::Next, Act::Next, Act::Next, Act::Next], finish: true },
+                Op::Search(s0.clone()),
+            ],
+            vec![e3.clone(), e3.clone()],
+            0,
+        ),
+        (
+            vec![Op::Wc(vec![ctrl.clone(), RC { oid: String::from("1.2.3"), crit: false, val: Some(vec![]) }]), Op::Stream { s: s0.clone(), ad: Ad::Paged(2), acts: vec![Act::Next; 9], finish: true }, Op::LastId, Op::Delete { dn: String::from("o=x") }],
+            vec![page(b"c1"), page(b"c2"), page(b""), OK],
+            0,
+        ),
+        (
+            vec![Op::Stream { s: s0.clone(), ad: Ad::Chain(3), acts: vec![Act::Next, Act::Next, Act::LastId, Act::Next, Act::Next, Act::Next, Act::Next], finish: true }, Op::Stream { s: s0.clone(), ad: Ad::Entries, acts: vec![Act::Next], finish: false }, Op::Stream { s: s0.clone(), ad: Ad::Empty, acts: vec![], finish: true }],
+            vec![Beh { referral: true, ..page(b"k") }, e3.clone(), e3.clone(), e3.clone()],
+            0,
+        ),
+        (
+            vec![Op::Wc(vec![RC { oid: String::from("1.2.840.113556.1.4.319"), crit: false, val: None }]), Op::Stream { s: s0.clone(), ad: Ad::Paged(5), acts: vec![Act::Next], finish: true }, Op::Delete { dn: String::from("o=x") }],
+            vec![OK],
+            0,
+        ),
+        (
+            vec![Op::Wt(SHORT_MS), Op::Delete { dn: String::from("o=zzsilent") }, Op::LastId, Op::Abandon(AbId::Last), Op::Delete { dn: String::from("o=after") }, Op::IsClosed],
+            vec![OK, OK],
+            1,
+        ),
+        (
+            vec![Op::Wt(SHORT_MS), Op::Stream { s: Srch { base: String::from("ou=zzsilent,dc=example"), ..s0.clone() }, ad: Ad::Plain, acts: vec![Act::Next, Act::Next, Act::Next, Act::Next], finish: true }, Op::Search(s0.clone())],
+            vec![Beh { entries: 2, referral: false, end: End::Done { rc: 0, cookie: None, extra_ctrl: false } }, e3.clone()],
+            1,
+        ),
+        (
+            vec![Op::Delete { dn: String::from("o=1") }, Op::Search(Srch { base: String::from("ou=zzdisconnect,dc=example"), ..s0.clone() }), Op::IsClosed, Op::Delete { dn: String::from("o=2") }, Op::Stream { s: s0.clone(), ad: Ad::Plain, acts: vec![Act::Next], finish: true }, Op::Unbind, Op::IsClosed],
+            vec![OK, Beh { entries: 1, referral: false, end: End::Done { rc: 0, cookie: None, extra_ctrl: false } }],
+            0,
+        ),
+        (
+            vec![Op::Add { dn: String::from("o=x"), attrs: vec![(b"cn".to_vec(), vec![])] }, Op::Wc(vec![ctrl.clone()]), Op::Search(Srch { filter: String::from("(cn="), ..s0.clone() }), Op::Delete { dn: String::from("o=x") }],
+            vec![Beh { entries: 0, referral: false, end: End::Done { rc: 32, cookie: None, extra_ctrl: false } }],
+            0,
+        ),
+    ];
+    for (ops, behs, ns) in &corpus {
+        case(&mut out, "corpus", ops, behs, *ns);
+    }
+    let n = if thorough { 6_000 } else { 300 };
+    for i in 0..n {
+        // silence costs real time: about one script in seven (quick) may contain one silent operation
+        let allow = thorough || i % 2 == 0;
+        let (ops, behs, ns) = gen_script(&mut rng, allow);
+        case(&mut out, "script", &ops, &behs, ns);
+    }
+    out.finish("scripts of 1..12 calls (+ a short-timeout prefix for a silent server) over the whole LdapConn/EntryStream surface: simple_bind, sasl_external_bind, search, streaming_search / streaming_search_with (EntriesOnly, PagedResults with 1..3 pages, a boxed adapter vector, an empty vector) with next/last_id/result-or-drop, add, compare, delete, modify, modifydn, extended (WhoAmI and raw), abandon, unbind, last_id, is_closed, get_peer_certificate, with_controls/with_timeout/with_search_options in random combination; locally refused calls (empty value sets, unparsable filters); scripted server: success, 27 error codes (referral with URIs), entries + referrals, response controls, paging cookies, silence (client timeout 150 ms), disconnect mid-operation; each script run through LdapConn/EntryStream and through Ldap/SearchStream on separate Unix socket pairs; non-trivial = at least one message reached the server; distinct by FNV of the script text");
 }
